@@ -72,6 +72,8 @@ class Report(object):
                    violations=[{k: v[k] for k in v if k not in ('replay', 'model')} for v in self.violations][:50])
         cov.update(self.extra)
         common.write_evidence(self.pid, self.tier, self.seed, self.level, cov, assumptions, time.time() - self.t0, len(self.violations))
+        if self.violations:
+            return 1
         if self.machinery_errors:
             return 2
-        return 1 if self.violations else 0
+        return 0
